@@ -179,7 +179,11 @@ def generate(tier, seed):
         else:
             alts = ' | '.join('(%s)' % ', '.join(a) for a in c['alts'])
             inv = 'matching!(%s%s)' % (alts, (' if %s' % c['guard']) if c['guard'] else '')
-        lines.append('    pub fn m%d() -> impl Clause { %sMock::f.each_call(%s).returns(1u8) }' % (idx, tname, inv))
+        inv_src = inv
+        if n >= 1 and idx % 3 == 1:
+            # a multi-line invocation as rustfmt lays long ones out: the recorded line must still be that of `matching!(` itself
+            inv_src = 'matching!(\n            %s\n        )' % inv[len('matching!('):-1]
+        lines.append('    pub fn m%d() -> impl Clause { %sMock::f.each_call(%s).returns(1u8) }' % (idx, tname, inv_src))
         # reference
         if n == 0:
             inputs_ty = '()'
